@@ -144,6 +144,16 @@ namespace logmessage {
             [[nodiscard]] std::string formatMessage() const override;
         };
 
+        class MacroRecursion : public PreprocBase {
+            static const loglevel level = loglevel::error;
+            static const size_t errorCode = 10015;
+            std::string macroName;
+        public:
+            MacroRecursion(LogLocationInfo loc, std::string macroName) :
+                PreprocBase(level, errorCode, std::move(loc)), macroName(std::move(macroName)) {}
+            [[nodiscard]] std::string formatMessage() const override;
+        };
+
         class IncludeFailed : public PreprocBase {
             static const loglevel level = loglevel::error;
             static const size_t errorCode = 10004;
